@@ -71,3 +71,101 @@ Check C10_initial_state : forall k dict mem,
   0 < dict -> k_wfail k = None ->
   CInv (snk_bytes k) (circ_new k dict mem) [].
 Print Assumptions C10_initial_state.
+
+From LZ Require Import Model.Stream Proofs.StreamLatch Proofs.MemLimitRun Proofs.MemLimitStream.
+
+(* whole runs on ARBITRARY input: with peak = the largest window buffer length of the run under the larger limit, peak <= m makes the run with limit m equal to it (verdict, sink, source position); peak > m makes it Failed ELzma with a prefix of the output in the sink   [proved as mem_limit_exact in Proofs/MemLimitRun.v] *)
+Theorem C10_memlimit_exact_whole_run :
+  forall (fuel : positive) (o : options) (ml2 : option N) (m : N) (w : io),
+  m <= mem_of ml2 ->
+  let r1 := lzma_decompress fuel (with_mem o (Some m)) w in
+  let r2 := lzma_decompress fuel (with_mem o ml2) w in
+  let peak := lzma_peak fuel (with_mem o ml2) w in
+  (peak <= m -> r1 = r2) /\
+  (m < peak ->
+   fst r1 = Failed ELzma /\ (exists t : list N, snk_bytes (i_snk (snd r2)) = snk_bytes (i_snk (snd r1)) ++ t)).
+Proof. exact (@mem_limit_exact). Qed.
+Check C10_memlimit_exact_whole_run :
+  forall (fuel : positive) (o : options) (ml2 : option N) (m : N) (w : io),
+  m <= mem_of ml2 ->
+  let r1 := lzma_decompress fuel (with_mem o (Some m)) w in
+  let r2 := lzma_decompress fuel (with_mem o ml2) w in
+  let peak := lzma_peak fuel (with_mem o ml2) w in
+  (peak <= m -> r1 = r2) /\
+  (m < peak ->
+   fst r1 = Failed ELzma /\ (exists t : list N, snk_bytes (i_snk (snd r2)) = snk_bytes (i_snk (snd r1)) ++ t)).
+Print Assumptions C10_memlimit_exact_whole_run.
+
+(* the verdict form   [proved as mem_limit_verdict in Proofs/MemLimitRun.v] *)
+Theorem C10_memlimit_verdict :
+  forall (fuel : positive) (o : options) (ml2 : option N) (m : N) (w : io),
+  m <= mem_of ml2 ->
+  fst (lzma_decompress fuel (with_mem o (Some m)) w) = fst (lzma_decompress fuel (with_mem o ml2) w) \/
+  fst (lzma_decompress fuel (with_mem o (Some m)) w) = Failed ELzma.
+Proof. exact (@mem_limit_verdict). Qed.
+Check C10_memlimit_verdict :
+  forall (fuel : positive) (o : options) (ml2 : option N) (m : N) (w : io),
+  m <= mem_of ml2 ->
+  fst (lzma_decompress fuel (with_mem o (Some m)) w) = fst (lzma_decompress fuel (with_mem o ml2) w) \/
+  fst (lzma_decompress fuel (with_mem o (Some m)) w) = Failed ELzma.
+Print Assumptions C10_memlimit_verdict.
+
+(* the window buffer never exceeds the limit, for any input whatsoever   [proved as mem_never_exceeded in Proofs/MemLimitRun.v] *)
+Theorem C10_never_exceeded_any_input :
+  forall (m : N) (mode : pmode) (k : snk) (dict : N) (d : dstate) (r : rc) (s : src) (n : nat),
+  match
+    ProgLemmas.iter_step n (pm_body mode)
+      {| l_ds := d; l_rc := r; l_src := s; l_win := WCirc (circ_new k dict m) |}
+  with
+  | Next w' => blen_ok m (l_win w')
+  | Break res => blen_ok m (l_win (snd res))
+  end.
+Proof. exact (@mem_never_exceeded). Qed.
+Check C10_never_exceeded_any_input :
+  forall (m : N) (mode : pmode) (k : snk) (dict : N) (d : dstate) (r : rc) (s : src) (n : nat),
+  match
+    ProgLemmas.iter_step n (pm_body mode)
+      {| l_ds := d; l_rc := r; l_src := s; l_win := WCirc (circ_new k dict m) |}
+  with
+  | Next w' => blen_ok m (l_win w')
+  | Break res => blen_ok m (l_win (snd res))
+  end.
+Print Assumptions C10_never_exceeded_any_input.
+
+(* the same for the streaming decoder under any sequence of write / flush calls and finish   [proved as stream_mem_limit_exact in Proofs/MemLimitStream.v] *)
+Theorem C10_stream_memlimit_exact :
+  forall (o : options) (ml2 : option N) (m : N) (k : snk) (cs : list call),
+  m <= mem_of ml2 ->
+  let run := fun ml : option N => run_calls (stream_new (with_mem o ml) k) cs in
+  let fin := fun ml : option N => stream_finish (snd (run ml)) in
+  fst (run (Some m)) = fst (run ml2) /\ fin (Some m) = fin ml2 \/
+  (In (RW (Failed ELzma)) (fst (run (Some m))) \/ fst (run (Some m)) = fst (run ml2)) /\
+  fst (fin (Some m)) = Failed ELzma /\
+  (exists t : list N, snk_bytes (snd (fin ml2)) = snk_bytes (snd (fin (Some m))) ++ t).
+Proof. exact (@stream_mem_limit_exact). Qed.
+Check C10_stream_memlimit_exact :
+  forall (o : options) (ml2 : option N) (m : N) (k : snk) (cs : list call),
+  m <= mem_of ml2 ->
+  let run := fun ml : option N => run_calls (stream_new (with_mem o ml) k) cs in
+  let fin := fun ml : option N => stream_finish (snd (run ml)) in
+  fst (run (Some m)) = fst (run ml2) /\ fin (Some m) = fin ml2 \/
+  (In (RW (Failed ELzma)) (fst (run (Some m))) \/ fst (run (Some m)) = fst (run ml2)) /\
+  fst (fin (Some m)) = Failed ELzma /\
+  (exists t : list N, snk_bytes (snd (fin ml2)) = snk_bytes (snd (fin (Some m))) ++ t).
+Print Assumptions C10_stream_memlimit_exact.
+
+(* streaming: the buffer never exceeds the limit   [proved as stream_never_exceeds in Proofs/MemLimitStream.v] *)
+Theorem C10_stream_never_exceeds :
+  forall (o : options) (k : snk) (cs : list call),
+  match st_state (snd (run_calls (stream_new o k) cs)) with
+  | Some (SData r) => c_blen (rs_out r) <= mem_of (o_memlimit o)
+  | _ => True
+  end.
+Proof. exact (@stream_never_exceeds). Qed.
+Check C10_stream_never_exceeds :
+  forall (o : options) (k : snk) (cs : list call),
+  match st_state (snd (run_calls (stream_new o k) cs)) with
+  | Some (SData r) => c_blen (rs_out r) <= mem_of (o_memlimit o)
+  | _ => True
+  end.
+Print Assumptions C10_stream_never_exceeds.
